@@ -57,14 +57,16 @@ func Tokenize(s string) (toks Tokens) {
 				tok = newToken()
 			}
 			toks = append(toks, &token{
-				Text:   string(r),
+				Text:   s[i : i+size],
 				Offset: i,
 			})
 		default:
 			if tok.Offset == -1 {
 				tok.Offset = i
 			}
-			tok.Text += string(r)
+			// Take the bytes from the source: string(r) of an invalid byte is the
+			// three-byte encoding of utf8.RuneError, which is not in the text.
+			tok.Text += s[i : i+size]
 		}
 		i += size
 	}
